@@ -299,7 +299,7 @@ pub fn convex_margin(poly: &[(f64, f64)], p: (f64, f64)) -> f64 {
 /// numerator of y): relative accuracy ~1e-15 whatever the size of the figure, where unit vectors only give 1e-16 absolute.
 /// Great circles map to straight lines. None farther than ~87 deg from c.
 pub fn gnomonic(c: (f64, f64), p: (f64, f64)) -> Option<(f64, f64)> {
-  let mut dlon = p.0 - c.0; if dlon > PI { dlon -= TWO_PI; } else if dlon < -PI { dlon += TWO_PI; }
+  let mut dlon = p.0 - c.0; if dlon.abs() > PI { dlon = (dlon + PI).rem_euclid(TWO_PI) - PI; }
   let dlat = p.1 - c.1;
   let (s0, c0) = c.1.sin_cos(); let (s1, c1) = p.1.sin_cos();
   let sh = (0.5 * dlon).sin(); let omc = 2.0 * sh * sh;
